@@ -84,7 +84,7 @@ def execute(acc, case):
                 mine = []
                 for j in range(case["per"]):
                     seq += 1
-                    size = rng.choice([0, 0, 5, 100, 1000]) if not case.get("big") else rng.choice([20000, 70000, 70000])
+                    size = rng.choice([0, 0, 5, 100, 1000]) if not case.get("big") else rng.choice([20000, 70000, 70000, 300000] if case.get("huge") else [20000, 70000, 70000])
                     lm = N.app_request(seq, size=size, host=N.LOCAL[0], realm=N.LOCAL[1], dest_realm=N.PEER[1]) if rng.random() < 0.7 \
                         else N.app_answer(seq, size=size, host=N.LOCAL[0], realm=N.LOCAL[1])
                     enc = R.encode(lm)
@@ -290,6 +290,11 @@ def plan(tier, seed):
         # aggregate above the 256 KiB batching limit, handed over in one send_messages() call
         cases.append({"seed": seed * 733 + i, "submitters": rng.choice([1, 2]), "per": 8, "big": True, "batch": True,
                       "write": rng.choice(["full", "fixed4096", "random"]), "inbound": 0, "strategy": rng.choice(["rr", "rw"]), "p": 0.05, "role": "client"})
+    for i in range(4 if q else 40):
+        # single messages longer than the 256 KiB batching limit, alone and among others, one by one and in one call
+        cases.append({"seed": seed * 739 + i, "submitters": rng.choice([1, 2]), "per": rng.choice([1, 3, 5]), "big": True, "huge": True, "batch": i % 2 == 0,
+                      "write": rng.choice(["full", "full", "random"]), "inbound": 0, "strategy": "rr", "p": 0.05, "role": ("client", "server")[i % 2],
+                      "max_steps": 2_000_000})
     return cases
 
 
